@@ -137,7 +137,66 @@ def _pure_arg(e: ast.AST) -> bool:
         return True
     if isinstance(e, ast.Attribute):
         return _pure_arg(e.value)
+    if isinstance(e, ast.BinOp) and isinstance(e.op, (ast.Add, ast.Sub, ast.Mult)) and _pure_arg(e.left) and _pure_arg(e.right) \
+            and (isinstance(e.left, ast.Constant) or isinstance(e.right, ast.Constant)):
+        return True  # depth + 1
     return False
+
+
+class _Fold(ast.NodeTransformer):
+    """constant folding after a flag parameter was substituted by True / False: `False and X` -> False, `True and X` -> X,
+    `if False: ...` dropped, `X if True else Y` -> X"""
+
+    def visit_BoolOp(self, n: ast.BoolOp):
+        self.generic_visit(n)
+        vals = []
+        for v in n.values:
+            if isinstance(v, ast.Constant) and isinstance(v.value, bool):
+                if isinstance(n.op, ast.And):
+                    if v.value is False:
+                        return ast.copy_location(ast.Constant(value=False), n) if not vals else ast.copy_location(ast.BoolOp(op=ast.And(), values=vals + [v]), n) if False else ast.copy_location(ast.Constant(value=False), n) if all(_pure_arg(x) or isinstance(x, (ast.Compare, ast.UnaryOp)) for x in vals) else n
+                    continue
+                else:
+                    if v.value is True:
+                        return ast.copy_location(ast.Constant(value=True), n) if all(_pure_arg(x) or isinstance(x, (ast.Compare, ast.UnaryOp)) for x in vals) else n
+                    continue
+            vals.append(v)
+        if not vals:
+            return ast.copy_location(ast.Constant(value=isinstance(n.op, ast.And)), n)
+        if len(vals) == 1:
+            return vals[0]
+        n.values = vals
+        return n
+
+    def visit_UnaryOp(self, n: ast.UnaryOp):
+        self.generic_visit(n)
+        if isinstance(n.op, ast.Not) and isinstance(n.operand, ast.Constant) and isinstance(n.operand.value, bool):
+            return ast.copy_location(ast.Constant(value=not n.operand.value), n)
+        return n
+
+    def visit_IfExp(self, n: ast.IfExp):
+        self.generic_visit(n)
+        if isinstance(n.test, ast.Constant) and isinstance(n.test.value, bool):
+            return n.body if n.test.value else n.orelse
+        return n
+
+
+def _fold_block(body: List[ast.stmt]) -> List[ast.stmt]:
+    out: List[ast.stmt] = []
+    for s in body:
+        s = _Fold().visit(s)
+        for fld in ("body", "orelse", "finalbody"):
+            sub = getattr(s, fld, None)
+            if isinstance(sub, list) and sub and isinstance(sub[0], ast.stmt) and not isinstance(s, (ast.FunctionDef, ast.AsyncFunctionDef, ast.ClassDef)):
+                setattr(s, fld, _fold_block(sub) or ([ast.Pass()] if fld == "body" else []))
+        if isinstance(s, ast.Try):
+            for h in s.handlers:
+                h.body = _fold_block(h.body) or [ast.Pass()]
+        if isinstance(s, ast.If) and isinstance(s.test, ast.Constant) and isinstance(s.test.value, bool):
+            out.extend(s.body if s.test.value else s.orelse)
+            continue
+        out.append(s)
+    return out
 
 
 class _Rename(ast.NodeTransformer):
@@ -280,10 +339,24 @@ def _expr_of(fn: ast.AST) -> Optional[ast.AST]:
     """the helper as one expression, if its body is (if c: return a)* return b"""
     body = _strip_doc(fn.body)
 
+    def pureish(e: ast.AST) -> bool:
+        if _pure_arg(e):
+            return True
+        return isinstance(e, ast.Call) and isinstance(e.func, ast.Name) and e.func.id in ("type", "len", "id", "isinstance", "bool") and not e.keywords and all(pureish(a) for a in e.args)
+
     def conv(stmts: List[ast.stmt]) -> Optional[ast.AST]:
         if not stmts:
             return None
         s = stmts[0]
+        if isinstance(s, ast.Assign) and len(s.targets) == 1 and isinstance(s.targets[0], ast.Name) and pureish(s.value) and len(stmts) > 1:
+            # v = <pure>; ... : substitute v in what follows
+            rest = conv(stmts[1:])
+            if rest is None:
+                return None
+            nm = s.targets[0].id
+            if any(isinstance(n, ast.Name) and n.id == nm and isinstance(n.ctx, ast.Store) for st in stmts[1:] for n in ast.walk(st)):
+                return None
+            return _Rename({nm: s.value}, {}).visit(copy.deepcopy(rest))
         if isinstance(s, ast.Return) and s.value is not None:
             return s.value
         if isinstance(s, ast.If):
@@ -419,9 +492,37 @@ class Inliner:
                 cand = f"_inl{k}_{name}"
             return cand
 
+        def single_straight_use(pname: str) -> bool:
+            """the parameter is read exactly once, and that read is evaluated exactly once (not inside a loop body, a
+            comprehension or a nested function -- the iterable of a top-level for statement is fine)"""
+            uses = [n for n in ast.walk(h) if isinstance(n, ast.Name) and n.id == pname and isinstance(n.ctx, ast.Load)]
+            if len(uses) != 1:
+                return False
+            u = uses[0]
+
+            def inside_repeated(node: ast.AST, target: ast.AST) -> Optional[bool]:
+                for fld, val in ast.iter_fields(node):
+                    vals = val if isinstance(val, list) else [val]
+                    for v in vals:
+                        if not isinstance(v, ast.AST):
+                            continue
+                        if v is target or any(x is target for x in ast.walk(v)):
+                            rep = isinstance(node, (ast.While, ast.ListComp, ast.SetComp, ast.DictComp, ast.GeneratorExp, ast.Lambda, ast.FunctionDef, ast.AsyncFunctionDef)) and node is not h
+                            if isinstance(node, (ast.For, ast.AsyncFor)) and fld in ("body", "orelse"):
+                                rep = True
+                            if rep:
+                                return True
+                            if v is target:
+                                return False
+                            return inside_repeated(v, target)
+                return False
+            return inside_repeated(h, u) is False
+        impure = [p_ for p_, x_ in bound.items() if not _pure_arg(x_)]
         for p, x in bound.items():
             if p not in stored and _pure_arg(x):
                 subst[p] = x
+            elif p not in stored and len(impure) == 1 and single_straight_use(p) and not any(isinstance(n, (ast.Yield, ast.YieldFrom, ast.Await, ast.NamedExpr)) for n in ast.walk(x)):
+                subst[p] = x  # the only impure argument, evaluated once where the parameter was read once
             elif p in stored and isinstance(x, ast.Name) and assign_target == x.id:
                 subst[p] = x  # x = helper(x): the helper's rebinding of its parameter is the caller's variable
             else:
@@ -586,6 +687,8 @@ class Inliner:
                     if not (isinstance(loop, ast.While) and isinstance(loop.test, ast.Constant) and loop.test.value is True) and not getattr(loop, "_svx_total", False):
                         raise NotInlinable("valued helper whose final loop may end without return")
                 new = prelude + b2
+            if any(isinstance(v_, ast.Constant) and isinstance(v_.value, bool) for v_ in subst.values()):
+                new = _fold_block(new)
             if not new:
                 new = [ast.copy_location(ast.Pass(), s)]
             for n in new:
@@ -679,6 +782,50 @@ class Inliner:
         self.log.append(f"{self.modname}: call of new helper {self.target(found, scope)[0]} hoisted out of an expression in {'.'.join(scope)}")
         return [pre, s]
 
+    def dewalrus(self, body: List[ast.stmt]) -> List[ast.stmt]:
+        """`if (x := E) <op> ...:` -> `x = E; if x <op> ...:`   and   `if A and (x := E) <op> ...: B` (no else) -> `if A: x = E; if x ...: B`"""
+        out: List[ast.stmt] = []
+        for s in body:
+            for fld in ("body", "orelse", "finalbody"):
+                sub = getattr(s, fld, None)
+                if isinstance(sub, list) and sub and isinstance(sub[0], ast.stmt) and not isinstance(s, (ast.FunctionDef, ast.AsyncFunctionDef, ast.ClassDef)):
+                    setattr(s, fld, self.dewalrus(sub))
+            if isinstance(s, ast.Try):
+                for h in s.handlers:
+                    h.body = self.dewalrus(h.body)
+            if isinstance(s, ast.If):
+                t = s.test
+                ops = list(t.values) if isinstance(t, ast.BoolOp) and isinstance(t.op, ast.And) else [t]
+                k = next((i for i, o in enumerate(ops) if any(isinstance(x, ast.NamedExpr) for x in ast.walk(o))), None)
+                if k is not None and (k == 0 or not s.orelse):
+                    o = ops[k]
+                    wal = [x for x in ast.walk(o) if isinstance(x, ast.NamedExpr)]
+                    # only the simple case: one walrus, evaluated first within its operand
+                    if len(wal) == 1 and isinstance(wal[0].target, ast.Name) and not any(isinstance(x, (ast.BoolOp, ast.IfExp, ast.Lambda)) for x in ast.walk(o)):
+                        w = wal[0]
+                        assign = ast.copy_location(ast.Assign(targets=[ast.Name(id=w.target.id, ctx=ast.Store())], value=w.value, lineno=s.lineno), s)
+
+                        class R(ast.NodeTransformer):
+                            def visit_NamedExpr(self, n):
+                                return ast.copy_location(ast.Name(id=n.target.id, ctx=ast.Load()), n)
+                        o2 = R().visit(copy.deepcopy(o))
+                        rest_ops = [o2] + ops[k + 1:]
+                        inner_test = rest_ops[0] if len(rest_ops) == 1 else ast.BoolOp(op=ast.And(), values=rest_ops)
+                        inner = ast.copy_location(ast.If(test=inner_test, body=s.body, orelse=s.orelse if k == 0 else []), s)
+                        if k == 0:
+                            new = [assign, inner]
+                        else:
+                            pre = ops[:k]
+                            outer_test = pre[0] if len(pre) == 1 else ast.BoolOp(op=ast.And(), values=pre)
+                            new = [ast.copy_location(ast.If(test=outer_test, body=[assign, inner], orelse=[]), s)]
+                        for n_ in new:
+                            ast.fix_missing_locations(n_)
+                        self.log.append(f"{self.modname}: assignment expression `{w.target.id} := ...` in an if-test written as a statement")
+                        out.extend(new)
+                        continue
+            out.append(s)
+        return out
+
     def rewrite_block(self, body: List[ast.stmt], caller: ast.AST, scope: List[str]) -> List[ast.stmt]:
         out: List[ast.stmt] = []
         body = list(body)
@@ -765,6 +912,9 @@ class Inliner:
     def run(self) -> ast.Module:
         self.new_helpers()
         self.flatten_record_params()
+        for fn_ in [n for n in ast.walk(self.tree) if isinstance(n, (ast.FunctionDef, ast.AsyncFunctionDef))]:
+            if any(isinstance(x, ast.NamedExpr) for x in ast.walk(fn_)):
+                fn_.body = self.dewalrus(fn_.body)
         if not self.helpers:
             self.scalar_replace()
             ast.fix_missing_locations(self.tree)
